@@ -86,6 +86,18 @@ RefQ(w, q, ans) ==
             Dev(m.ok = ans.ok /\ (m.ok => m.amount = ans.amount), "q-router-sim")
       [] q.op = "q_fac_walk" ->
             Dev(ans.ok => [i \in DOMAIN ans.pages |-> PageOf(ans.pages[i])] = WalkFrom(w, None, q.limit, 200), "q-fac-walk")
+      [] q.op = "q_pool" ->
+            \* the pair's Pool query reports its two actual reserves (in its own asset order) and the LP supply
+            Dev(q.pair \in Pairs(w) =>
+                   /\ ans.ok
+                   /\ ans.i0 = w.pair[q.pair].a0 /\ ans.i1 = w.pair[q.pair].a1
+                   /\ ans.r0 = Res0(w, q.pair) /\ ans.r1 = Res1(w, q.pair)
+                   /\ ans.share = LpSupply(w, q.pair), "q-pool")
+      [] q.op = "q_fac_config" ->
+            Dev(ans.ok /\ ans.owner = w.fac.owner /\ ans.pair_code = w.fac.pair_code /\ ans.token_code = w.fac.token_code, "q-fac-config")
+      [] q.op = "q_router_rev" ->
+            LET m == QRouterRev(w, q.operations, q.amount) IN
+            Dev(m.ok = ans.ok /\ (m.ok => m.amount = ans.amount), "q-router-rev")
       [] OTHER -> TRUE
 
 \* class of a C01/C03 violation on pair p: inside the KF-1 input class or fresh
